@@ -105,7 +105,7 @@ std::string mutateDeck(const std::string& base, const std::vector<std::string>& 
     for (int m = 0; m < nmut; ++m) {
         auto lines = splitLines(text);
         if (lines.empty()) lines.push_back("");
-        int which = r.range(0, 9);
+        int which = r.range(0, 10);
         size_t li = r.below(lines.size());
         switch (which) {
         case 0: { // token delete
@@ -130,6 +130,17 @@ std::string mutateDeck(const std::string& base, const std::vector<std::string>& 
         case 7: { // truncate
             text = joinLines(lines); if (!text.empty()) text.resize(r.below(text.size())); kinds += "truncate,"; continue; }
         case 8: lines.insert(lines.begin() + li, r.pick(keywordPool)); kinds += "kwins,"; break;
+        case 10: { // a keyword whose record lost its items (what token deletion leaves of it)
+            std::string kw = r.coin(1, 3) ? r.pick(std::vector<std::string>{ "INCLUDE", "PATHS", "IMPORT", "TITLE", "START", "SKIP", "ENDSKIP", "ENDINC", "END" }) : r.pick(keywordPool);
+            std::vector<std::string> snip = { kw };
+            switch (r.range(0, 4)) {
+            case 0: snip.push_back("/"); break;
+            case 1: snip.push_back("/"); snip.push_back("/"); break;
+            case 2: snip.push_back(" " + r.pick(tokenPool) + " /"); break;
+            case 3: snip.push_back(" 'A' /"); snip.push_back("/"); break;
+            default: break;      // the bare keyword
+            }
+            lines.insert(lines.begin() + li, snip.begin(), snip.end()); kinds += "emptied,"; break; }
         case 9: { // swap two lines
             size_t lj = r.below(lines.size()); std::swap(lines[li], lines[lj]); kinds += "lineswap,"; break; }
         }
@@ -253,11 +264,22 @@ int main(int argc, char** argv) {
         }
         if (corpus.empty()) { log.fail("setup.no-corpus", "no shipped decks found under " + repo + "/tests"); }
         fs::current_path(repo + "/tests");      // INCLUDE paths of the shipped decks are relative
-        int n = tier == "thorough" ? 6000 : 500;
+        // fixed probes, run at every seed: keywords read by the parser itself (INCLUDE, PATHS, …)
+        // and a few ordinary ones with their record emptied, in front of and inside a deck
+        std::vector<std::string> fixedDecks;
+        for (auto kw : { "INCLUDE", "PATHS", "IMPORT", "TITLE", "START", "DIMENS", "WELSPECS", "EQUALS", "SKIP", "ENDINC", "UDQ", "ACTIONX", "PYACTION", "TSTEP" })
+            for (auto tail : { "\n/\n", "\n/\n/\n", "\n", " /\n", "\n 'A' /\n/\n", "\n 1* /\n" }) {
+                fixedDecks.push_back(std::string(kw) + tail);
+                fixedDecks.push_back("RUNSPEC\nDIMENS\n 2 2 1 /\nGRID\n" + std::string(kw) + tail + "PORO\n 4*0.3 /\nSCHEDULE\n" + std::string(kw) + tail);
+            }
+        g_stats["deck.fixed_probes"] = (long) fixedDecks.size();
+        int n = (tier == "thorough" ? 6000 : 500) + (int) fixedDecks.size();
         for (int i = 0; i < n && !corpus.empty(); ++i) {
             std::string kinds;
             const std::string& base = corpus[rng.below(corpus.size())];
-            std::string text = (i < (int) corpus.size()) ? corpus[i] : mutateDeck(base, corpus, rng, kinds);
+            std::string text = (i < (int) fixedDecks.size()) ? fixedDecks[i]
+                             : (i < (int) (fixedDecks.size() + corpus.size())) ? corpus[i - fixedDecks.size()] : mutateDeck(base, corpus, rng, kinds);
+            if (i < (int) fixedDecks.size()) kinds = "fixed-probe,";
             vh::spit(g_outdir + "/current_input.DATA", text);
             std::string stage;
             alarm(tier == "thorough" ? 120 : 60);
